@@ -12,19 +12,37 @@ maps    the six Map* classes on conductivities over twelve decades
         slice of a (3, nx, ny, nz) Fortran array, `mapped` = the model
         property) multiplies by d sigma/dx: analytic formula (1e-12), complex
         step of emg3d's own `backward` (1e-11) and central difference of
-        emg3d's `backward` (1e-7); nothing else is written.
+        emg3d's `backward` (1e-7); nothing else is written.  forward /
+        backward receive F- and C-ordered arrays, strided views, read-only
+        arrays, numpy scalars and 0-d arrays (the forms emg3d itself hands
+        over); the gradient is a strided slice of an F-ordered or a
+        contiguous slice of a C-ordered (3, ...) array; one case in eight
+        draws from sixty decades (1e-30 ... 1e30 S/m).
 coeff   the same conductivities expressed in the six parametrisations
         (constructor, or assignment through the setters) give VolumeModel
         eta_x/eta_y/eta_z/zeta equal to -s mu0 V (sigma + s eps0 eps_r) and
         V/mu_r componentwise (real and imaginary part) to 1e-12, hence equal
         to each other; all anisotropy cases, mu_r/epsilon_r on/off, frequency
-        and Laplace domain, up to twelve decades in one model.
+        and Laplace domain, up to twelve decades in one model (one case in
+        eight: anywhere in 1e-30 ... 1e30).  The mapping is selected by name,
+        by the documented default (kwarg omitted for 'Resistivity'; plus the
+        all-defaults Model(grid) = 1 Ohm m) or by a Map instance; each
+        property is handed over as full array, flat F-ordered vector, z-/x-/y-
+        profile to be broadcast, scalar, nested list or float32 array; the
+        model is built by the constructor, by the setters (all, or a drawn
+        subset = mixture of old and new values) or by writing into the arrays
+        in place, optionally after a VolumeModel for another source field has
+        been taken, and optionally passed through copy() / from_dict(to_dict())
+        / pickle / deepcopy before the coefficients are computed.
 reject  constructor and attribute assignment (property_x/y/z, mu_r,
         epsilon_r) raise ValueError exactly for values whose conductivity
         (back-mapped in float64: 0, -0, negative, +-inf, NaN, overflow to inf,
         underflow to 0) resp. mu_r/epsilon_r is non-positive or non-finite,
         and accept every positive finite one; a rejected assignment leaves
         the model untouched, an accepted one stores exactly the given values.
+        Assigning (valid values) to property_y / property_z of a model that
+        was initiated without it is refused (any exception) and leaves the
+        model and its anisotropy case untouched (Model docstring).
         The discrete product mapping x target x route x kind x form is
         enumerated completely in every run (Hypothesis alone starves late
         `sampled_from` draws), followed by free exploration.
@@ -52,21 +70,35 @@ RULE = ("maps: 1..64 conductivities (log-uniform / exact powers of ten / "
         "window ends) from a drawn window of up to 12 decades inside "
         "[1e-8, 1e4] S/m (end points included), six mappings, gradient "
         "values normal / 20 decades wide / with zeros, 1-3 dimensional "
-        "arrays; non-trivial = non-identity mapping and window >= 6 decades. "
+        "arrays; forward/backward input as F array / C array / strided view "
+        "/ read-only / numpy scalar / 0-d array; gradient slice of an F- or "
+        "C-ordered (3,...) array; 1 in 8 cases: sixty decades 1e-30..1e30; "
+        "non-trivial = non-identity mapping and window >= 6 decades. "
         "coeff: grid 1..5 cells per direction (uniform/stretched/random "
         "widths), four anisotropy cases, homogeneous/blocks/noise "
         "conductivities spanning up to 12 decades inside [1e-8, 1e4], "
         "optional mu_r in [0.5, 5] and epsilon_r in [1, 80], frequency "
         "1e-2..1e3 Hz or Laplace, built by constructor or through the "
-        "setters, all six mappings per case; non-trivial = heterogeneous, "
-        ">= 3 decades. reject: mapping x target (property_x/y/z, mu_r, "
+        "setters, all six mappings per case; added: mapping given by name / "
+        "omitted (default) / Map instance, and Model(grid) all-defaults; per "
+        "property the input form full / flat-F vector / z-, x-, y-profile / "
+        "scalar / nested list / float32; routes constructor / all setters / "
+        "drawn subset of setters / in-place writes; optional decoy "
+        "VolumeModel (other domain, 3x frequency; also judged) before the "
+        "assignments; optional copy / from_dict(to_dict) / pickle / deepcopy "
+        "before VolumeModel; 1 in 8 cases: window anywhere in 1e-30..1e30; "
+        "non-trivial = heterogeneous, >= 3 decades. "
+        "reject: mapping x target (property_x/y/z, mu_r, "
         "epsilon_r) x route (constructor, assignment) x kind (valid in the "
         "twelve decades, valid integer, valid extreme 1e+-300, zero, -0, "
         "negative, +inf, -inf, NaN, finite overflow, finite underflow) x form "
         "(float, numpy scalar, int, full array, array with a single special "
         "entry, int array, nested list): the full discrete product (4620 "
         "combinations) is enumerated in every run with drawn values / shapes "
-        "/ positions, plus free Hypothesis exploration; non-trivial = every "
+        "/ positions, plus mapping x {property_y, property_z} x valid kind x "
+        "form (168) assigned to a model initiated WITHOUT that property, "
+        "plus free Hypothesis exploration (1 in 6 of the y/z targets: "
+        "absent); non-trivial = every "
         "case; distinct by the tuple and seed.  solve: grid 3..6 cells, <= 3 decades, dipole / point "
         "/ random interior source, tol 1e-9..1e-5, MG or bicgstab+MG, 2-3 "
         "distinct mappings; non-trivial = all solves converged with >= 1 "
@@ -81,6 +113,21 @@ ASSUMPTIONS = [
     "a finite mapped value whose float64 back-mapped conductivity overflows "
     "to inf or underflows to 0 counts as non-finite / non-positive "
     "conductivity (that is what the solver would receive)",
+    "input forms are the documented ones: 'must be broadcastable to that "
+    "shape' (numpy rules: (nz,), (nx,1,1), (1,ny,1), scalar, nested list, "
+    "float32), a 1-D vector of n_cells is taken in Fortran order (models.py "
+    "_init_parameter; emg3d's own test_models passes .ravel('F')) - "
+    "constructor only; float32 input stands for its float64 value; a Map "
+    "instance as `mapping` is what Model.extract_1d passes; Models are "
+    "pickled by emg3d itself (process_map), in-place edits of "
+    "model.property_x[...] are used by emg3d's tests",
+    "'If a property is not initiated it cannot be set later on' (Model "
+    "docstring) = assignment raises (any exception type) and changes "
+    "nothing; only property_y / property_z, for which the docstring says so",
+    "wide window 1e-30..1e30 S/m: float64 formulas only, the tolerances are "
+    "the same (|ln sigma| <= 69: rounding of log/exp <= 2e-14, central "
+    "difference truncation 8e-10 < 1e-7; complex step relative to |x| for "
+    "the linear maps)",
     "data bound: |R(e_A) - R(e_B)| <= ||w||_2 (||r_A|| + ||r_B||) / "
     "sigma_min(A_interior), R linear in the field (sampling weights probed "
     "column by column for 'cubic'; convex weights and unit rotation vector "
@@ -407,6 +454,14 @@ def _model_spec(decades):
     })
 
 
+CFORMS = ['full', 'full', 'full', 'flatF', 'bcast_z', 'bcast_x', 'bcast_y',
+          'scalar', 'list', 'f32']
+PROPS = ('property_x', 'property_y', 'property_z', 'mu_r', 'epsilon_r')
+ROUTES = ['ctor', 'ctor', 'setter', 'inplace', 'subset']
+POSTS = ['none', 'none', 'none', 'copy', 'dict', 'pickle', 'deepcopy']
+MAPSEL = ['name', 'name', 'kw_default', 'instance']
+
+
 def coeff_strategy():
     return st.fixed_dictionaries({
         'grid': gen.grid_spec([1, 2, 2, 3, 3, 4, 5]),
@@ -416,8 +471,14 @@ def coeff_strategy():
         'pos': st.floats(0.0, 1.0),
         'freq': st.fixed_dictionaries({'f': gen.lgfloat(1e-2, 1e3),
                                        'laplace': st.booleans()}),
-        'route': st.sampled_from(['ctor', 'ctor', 'setter']),
+        'route': st.sampled_from(ROUTES),
         'corder': st.booleans(),
+        # --- added later (old replay specs lack them: spec.get defaults) ---
+        'mapsel': st.sampled_from(MAPSEL),
+        'forms': st.lists(st.sampled_from(CFORMS), min_size=5, max_size=5),
+        'post': st.sampled_from(POSTS),
+        'decoy': st.booleans(),
+        'wide': st.sampled_from([False]*7 + [True]),
     })
 
 
@@ -451,96 +512,238 @@ def _cmp_componentwise(got, ref, rtol):
     return ok, worst
 
 
+def _form_effective(form, a):
+    """Full-shape linear values (conductivity, mu_r, epsilon_r) that the
+    input form `form` of the full-shape array `a` stands for (before any
+    float32 rounding): broadcast forms repeat a profile of `a`."""
+    if a is None:
+        return None
+    sl = {'bcast_z': a[:1, :1, :], 'bcast_x': a[:, :1, :1],
+          'bcast_y': a[:1, :, :1], 'scalar': a[:1, :1, :1]}.get(form)
+    if sl is None:
+        return np.array(a, dtype=float)
+    return np.array(np.broadcast_to(sl, a.shape), dtype=float)
+
+
+def _form_value(form, full, corder):
+    """The object handed to emg3d for the full-shape mapped array `full`
+    (always freshly allocated: Model keeps views of Fortran-ordered input,
+    and no two properties may share memory), and the float64 full-shape
+    array emg3d has to hold afterwards."""
+    order = 'C' if corder else 'F'
+    if form == 'flatF':          # 1-D of size n: documented reshape, order F
+        return full.ravel('F').copy(), full
+    if form == 'bcast_z':        # (nz,)      numpy broadcasting rules
+        return full[0, 0, :].copy(), full
+    if form == 'bcast_x':        # (nx, 1, 1)
+        return np.array(full[:, :1, :1], order=order), full
+    if form == 'bcast_y':        # (1, ny, 1)
+        return np.array(full[:1, :, :1], order=order), full
+    if form == 'scalar':
+        return float(full[0, 0, 0]), full
+    if form == 'list':
+        return np.array(full, order=order).tolist(), full
+    if form == 'f32':
+        v = np.array(full, order=order, dtype=np.float32)
+        return v, v.astype(np.float64)
+    return np.array(full, order=order), full
+
+
+def _mapping_kw(emg3d, mapsel, m):
+    if mapsel == 'instance':        # an instantiated map (as extract_1d does)
+        return {'mapping': _emap(emg3d, m)}
+    if mapsel == 'kw_default' and m == 'Resistivity':
+        return {}                   # documented default
+    return {'mapping': m}
+
+
 def case_coeff(spec, rec):
+    import copy as _copy
+    import pickle
     import emg3d
     h, origin = gen.build_widths(spec['grid'])
     grid = emg3d.TensorMesh(h, origin=origin)
+    shape = tuple(int(k) for k in grid.shape_cells)
     ms = spec['model']
     case = ms['case']
     d = float(ms['decades'])
-    lo = LG_LO + float(spec['pos'])*(LG_HI - LG_LO - d)
+    wide = bool(spec.get('wide', False))
+    w_lo, w_hi = (WIDE_LO, WIDE_HI) if wide else (LG_LO, LG_HI)
+    lo = w_lo + float(spec['pos'])*(w_hi - w_lo - d)
     bg = 10.0**(lo + d/2)
-    sx, sy, sz, mur, epsr = gen.build_cond(ms, grid.shape_cells, bg)
+    route = spec['route']
+    mapsel = spec.get('mapsel', 'name')
+    post = spec.get('post', 'none')
+    decoy = bool(spec.get('decoy', False))
+    forms = list(spec.get('forms', ['full']*5))
+    if route != 'ctor':
+        # assignment broadcasts by numpy's rules: no flat vectors there
+        forms = ['full' if f == 'flatF' else f for f in forms]
+    lin = gen.build_cond(ms, shape, bg)           # sx, sy, sz, mur, epsr
+    present = [a is not None for a in lin]
+    forms = [f if p else 'absent' for f, p in zip(forms, present)]
+    # the values each input form stands for
+    lin = [_form_effective(f, a) for f, a in zip(forms, lin)]
+    # the state before the assignments (all routes but 'ctor')
+    other = None
+    assign = [False]*5
+    if route != 'ctor':
+        ms2 = dict(ms, seed=(ms['seed'] + 1) % 2**32)
+        other = [None if a is None else np.array(a, dtype=float)
+                 for a in gen.build_cond(ms2, shape, bg)]
+        if route == 'subset':
+            draw = gen.rng_of(ms['seed'], 147).integers(0, 2, 5)
+            assign = [bool(k) and p for k, p in zip(draw, present)]
+        else:
+            assign = list(present)
     freq = gen.freq_of(spec['freq'])
     s = gen.sval_of(spec['freq'])
-    rsy = sy if sy is not None else sx
-    rsz = sz if sz is not None else sx
-    ref = _coeff_ref(h, sx, rsy, rsz, mur, epsr, s)
     sfield = emg3d.Field(grid, frequency=freq)
+    # a second source field in the other domain (decoy VolumeModel)
+    freq2 = -3.0*freq
+    s2 = -freq2 if freq2 < 0 else 2j*np.pi*freq2
 
-    def arr(a):
-        if a is None:
-            return None
-        return np.ascontiguousarray(a) if spec['corder'] else \
-            np.asfortranarray(a)
+    def judge(vm, lin5, sval, bad, m):
+        sx, sy, sz, mur, epsr = lin5
+        ref = _coeff_ref(h, sx, sx if sy is None else sy,
+                         sx if sz is None else sz, mur, epsr, sval)
+        w_ = 0.0
+        for nm in ('eta_x', 'eta_y', 'eta_z', 'zeta'):
+            ok, w = _cmp_componentwise(getattr(vm, nm), ref[nm], 1e-12)
+            w_ = max(w_, w)
+            if not ok:
+                bad.setdefault(nm, []).append((m, w))
+        return w_
 
-    bad = {}
+    bad, bad_decoy = {}, {}
     worst = 0.0
     for m in MAPS:
-        px, py, pz = (arr(gen.map_forward(m, a)) for a in (sx, sy, sz))
-        keep = [None if a is None else a.copy() for a in (px, py, pz)]
+        mkw = _mapping_kw(emg3d, mapsel, m)
+        # objects handed over / arrays to be held / values they stand for
+        vals, hold, eff = [], [], []
+        for k, (f, a) in enumerate(zip(forms, lin)):
+            if a is None:
+                vals.append(None), hold.append(None), eff.append(None)
+                continue
+            full = gen.map_forward(m, a) if k < 3 else a
+            v, st_ = _form_value(f, full, spec['corder'])
+            if f == 'f32':         # float32 input: what it is in float64
+                e = gen.map_backward(m, st_) if k < 3 else st_
+            else:
+                e = a
+            vals.append(v), hold.append(np.array(st_)), eff.append(e)
         with warnings.catch_warnings():
             warnings.simplefilter('ignore')
-            if spec['route'] == 'ctor':
-                model = emg3d.Model(grid, px, py, pz, mu_r=arr(mur),
-                                    epsilon_r=arr(epsr), mapping=m)
+            if route == 'ctor':
+                model = emg3d.Model(grid, vals[0], vals[1], vals[2],
+                                    mu_r=vals[3], epsilon_r=vals[4], **mkw)
+                state = eff
             else:
-                # other (valid) values first, then assignment via the setters
-                ms2 = dict(ms, seed=(ms['seed'] + 1) % 2**32)
-                ox, oy, oz, omu, oep = gen.build_cond(ms2, grid.shape_cells,
-                                                      bg)
-                model = emg3d.Model(
-                    grid, gen.map_forward(m, ox), gen.map_forward(m, oy),
-                    gen.map_forward(m, oz), mu_r=omu, epsilon_r=oep,
-                    mapping=m)
-                model.property_x = px
-                if py is not None:
-                    model.property_y = py
-                if pz is not None:
-                    model.property_z = pz
-                if mur is not None:
-                    model.mu_r = arr(mur)
-                if epsr is not None:
-                    model.epsilon_r = arr(epsr)
+                # other (valid) values first ...
+                ini = [None if a is None else
+                       np.array(gen.map_forward(m, a) if k < 3 else a,
+                                order='F') for k, a in enumerate(other)]
+                model = emg3d.Model(grid, ini[0], ini[1], ini[2],
+                                    mu_r=ini[3], epsilon_r=ini[4], **mkw)
+                state = list(other)
+            if decoy:
+                # coefficients for another source field (other domain), taken
+                # before the assignments / before the ones compared below
+                vm2 = emg3d.models.VolumeModel(
+                    model, emg3d.Field(grid, frequency=freq2))
+                judge(vm2, state, s2, bad_decoy, m)
+            if route != 'ctor':
+                # ... then assignment via the setters / in place
+                state = list(other)
+                for k, nm in enumerate(PROPS):
+                    if not assign[k]:
+                        if other[k] is not None:
+                            hold[k] = np.array(
+                                gen.map_forward(m, other[k]) if k < 3
+                                else other[k])
+                        continue
+                    if route == 'inplace':
+                        getattr(model, nm)[...] = vals[k]
+                    else:
+                        setattr(model, nm, vals[k])
+                    state[k] = eff[k]
+            if post == 'copy':
+                model = model.copy()
+            elif post == 'dict':
+                model = emg3d.Model.from_dict(model.to_dict())
+            elif post == 'pickle':
+                model = pickle.loads(pickle.dumps(model))
+            elif post == 'deepcopy':
+                model = _copy.deepcopy(model)
             if model.case != case:
                 raise Violation(f"case:{case}", f"model.case={model.case}")
             if model.map.name != m:
-                raise Violation("map_name", f"{model.map.name} for {m}")
-            for nm, a in zip(('property_x', 'property_y', 'property_z'),
-                             keep):
+                raise Violation("map_name", f"{model.map.name} for {m} "
+                                            f"(mapping given by {mapsel}, "
+                                            f"post {post})")
+            for nm, a in zip(PROPS, hold):
                 st_ = getattr(model, nm)
                 if (a is None) != (st_ is None) or (
                         a is not None and not np.array_equal(st_, a)):
-                    raise Violation(f"stored_property_differs:{spec['route']}",
-                                    f"{nm} under {m} is not what was given")
+                    raise Violation(f"stored_property_differs:{route}",
+                                    f"{nm} under {m} is not what was given "
+                                    f"(forms {forms}, post {post})")
             vm = emg3d.models.VolumeModel(model, sfield)
-            for nm in ('eta_x', 'eta_y', 'eta_z', 'zeta'):
-                ok, w = _cmp_componentwise(getattr(vm, nm), ref[nm], 1e-12)
-                worst = max(worst, w)
-                if not ok:
-                    bad.setdefault(nm, []).append((m, w))
-    if bad:
-        nm = sorted(bad)[0]
-        who = bad[nm]
+            worst = max(worst, judge(vm, state, s, bad, m))
+    for which, bd, sv in (('', bad, s), ('decoy_', bad_decoy, s2)):
+        if not bd:
+            continue
+        nm = sorted(bd)[0]
+        who = bd[nm]
         tag = 'all_mappings' if len(who) == len(MAPS) else who[0][0]
         raise Violation(
-            f"coefficients_differ:{nm}:{tag}",
+            f"coefficients_differ:{which}{nm}:{tag}",
             f"VolumeModel.{nm} differs from -s mu0 V (sigma + s eps) resp. "
             f"V/mu_r for the same conductivities under "
             f"{[(a, float(f'{b:.2e}')) for a, b in who]} (rel, componentwise)"
-            f"; case {case}, route {spec['route']}, s={s}")
+            f"; case {case}, route {route}, s={sv}, forms {forms}, mapping "
+            f"by {mapsel}, post {post}, decoy {decoy}")
+
+    # ---- the all-defaults model: resistivity 1 Ohm m, isotropic -------------
+    if mapsel == 'kw_default':
+        with warnings.catch_warnings():
+            warnings.simplefilter('ignore')
+            model = emg3d.Model(grid)
+            vm = emg3d.models.VolumeModel(model, sfield)
+        px = model.property_x
+        if model.map.name != 'Resistivity' or model.case != 'isotropic' or \
+                px is None or px.shape != shape or not np.all(px == 1.0) or \
+                model.mu_r is not None or model.epsilon_r is not None:
+            raise Violation(
+                "default_model",
+                f"Model(grid): map {model.map.name}, case {model.case}, "
+                f"property_x {None if px is None else px.ravel()[:3]}, "
+                f"documented: resistivity 1, isotropic, no mu_r/epsilon_r")
+        bd = {}
+        judge(vm, [np.ones(shape), None, None, None, None], s, bd, 'default')
+        if bd:
+            raise Violation(
+                f"coefficients_differ:default_model:{sorted(bd)[0]}",
+                f"Model(grid) (documented defaults: 1 Ohm m) gives "
+                f"{sorted(bd)} != -s mu0 V resp. V; {bd}")
 
     het = ms['hetero'] != 'homog'
-    rec.cls(f"case={case}", f"route={spec['route']}",
-            f"mur={mur is not None}", f"epsr={epsr is not None}",
+    used = sorted({f for f in forms if f != 'absent'})
+    rec.cls(f"case={case}", f"route={route}",
+            f"mur={present[3]}", f"epsr={present[4]}",
             f"laplace={spec['freq']['laplace']}",
             'decades>=8' if d >= 8 else ('decades>=3' if d >= 3 else
                                          'decades<3'),
-            f"hetero={ms['hetero']}")
+            f"hetero={ms['hetero']}", f"mapsel={mapsel}", f"post={post}",
+            f"decoy={decoy}", f"wide={wide}",
+            *[f"form={f}" for f in used],
+            *[f"form_x={forms[0]}:hetero={het}"],
+            *([f"subset_assigned={sum(assign)}of{sum(present)}"]
+              if route == 'subset' else []))
     if het and d >= 3:
-        rec.nt([list(grid.shape_cells), case, ms['seed'], spec['route'],
+        rec.nt([list(shape), case, ms['seed'], route,
                 spec['grid']['seed']])
-    rec.note({'shape': list(grid.shape_cells), 'case': case,
+    rec.note({'shape': list(shape), 'case': case,
               'lg_sigma': [lo, lo+d], 'worst_rel': worst})
 
 
@@ -569,7 +772,30 @@ def reject_strategy():
         'form': st.sampled_from(FORMS),
         'corder': st.booleans(),
         'seed': gen.SEED,
+        # added later (old replay specs lack it: spec.get default False):
+        # assignment to property_y / property_z of a model built without it
+        'absent': st.sampled_from([False]*5 + [True]),
     })
+
+
+def absent_product(seed):
+    """mapping x target (property_y, property_z) x valid kind x form for
+    the assignment to a property the model was initiated without."""
+    rng = gen.rng_of(seed, 148)
+    forms = sorted(set(FORMS), key=FORMS.index)
+    out = []
+    for m, t, k, f in itertools.product(
+            MAPS, ['property_y', 'property_z'], ['valid', 'valid_int'],
+            forms):
+        out.append({
+            'mapping': m, 'case': gen.CASES[int(rng.integers(0, 4))],
+            'mur': bool(rng.integers(0, 2)), 'epsr': bool(rng.integers(0, 2)),
+            'n': [int(v) for v in rng.integers(1, 4, 3)],
+            'target': t, 'route': 'assign', 'kind': k, 'form': f,
+            'corder': bool(rng.integers(0, 2)),
+            'seed': int(rng.integers(0, 2**32)), 'absent': True,
+        })
+    return out
 
 
 def reject_product(seed, reps):
@@ -708,10 +934,19 @@ def case_reject(spec, rec):
     rng = gen.rng_of(spec['seed'], 142)
     # ---- a valid model that has the target --------------------------------
     case = spec['case']
-    if target == 'property_y' and case in ('isotropic', 'VTI'):
-        case = 'HTI' if case == 'isotropic' else 'triaxial'
-    if target == 'property_z' and case in ('isotropic', 'HTI'):
-        case = 'VTI' if case == 'isotropic' else 'triaxial'
+    absent = bool(spec.get('absent', False)) and \
+        target in ('property_y', 'property_z')
+    if absent:
+        # ... or, for 'absent', a valid model that lacks the target
+        route = 'assign'
+        case = ({'HTI': 'isotropic', 'triaxial': 'VTI'}
+                if target == 'property_y' else
+                {'VTI': 'isotropic', 'triaxial': 'HTI'}).get(case, case)
+    else:
+        if target == 'property_y' and case in ('isotropic', 'VTI'):
+            case = 'HTI' if case == 'isotropic' else 'triaxial'
+        if target == 'property_z' and case in ('isotropic', 'HTI'):
+            case = 'VTI' if case == 'isotropic' else 'triaxial'
     has_mur = spec['mur'] or target == 'mu_r'
     has_eps = spec['epsr'] or target == 'epsilon_r'
     shape = tuple(int(k) for k in spec['n'])
@@ -731,7 +966,10 @@ def case_reject(spec, rec):
             for k, v in base.items()}
 
     # ---- the value ---------------------------------------------------------
-    val, expect, kind = _special_value(target, m, spec['kind'], rng)
+    skind = spec['kind']
+    if absent and skind not in ('valid', 'valid_int', 'extreme'):
+        skind = 'valid'
+    val, expect, kind = _special_value(target, m, skind, rng)
     vcls = _value_class(target, m, val)
     if (vcls == 'ok') != (expect == 'accept'):
         raise HarnessError(f"reject: kind {kind} under {m} gives class "
@@ -768,6 +1006,48 @@ def case_reject(spec, rec):
     dkind = 'int' if form in ('int', 'int_array') else 'float'
     tkind = 'property' if elec else target
     vclass = 'range12' if kind in ('valid', 'valid_int') else 'extreme'
+
+    # ---- assignment to a property the model was initiated without ----------
+    if absent:
+        with warnings.catch_warnings():
+            warnings.simplefilter('ignore')
+            model = emg3d.Model(grid, base['property_x'], base['property_y'],
+                                base['property_z'], mu_r=base['mu_r'],
+                                epsilon_r=base['epsilon_r'], mapping=m)
+            if model.case != case or getattr(model, target) is not None:
+                raise Violation(f"case:{case}", f"model.case={model.case}")
+            snap = {k: (None if getattr(model, k) is None
+                        else np.array(getattr(model, k)))
+                    for k in base}
+            raised = None
+            try:
+                setattr(model, target, value)
+            except Exception as e:      # noqa: any refusal is a refusal
+                raised = e
+        changed = [k for k in base if not _same(getattr(model, k), snap[k])]
+        if model.case != case:
+            changed.append('case')
+        if raised is None:
+            raise Violation(
+                f"absent_property_assigned:{target}",
+                f"assignment {target}={val!r} ({form}) to a {case} model "
+                f"under {m} (initiated without {target}; documented: cannot "
+                f"be set later on) raised nothing; afterwards {target} is "
+                f"{'None' if getattr(model, target) is None else 'set'}, "
+                f"case {model.case}")
+        if changed:
+            raise Violation(
+                f"rejected_assignment_modified_model:{tkind}:{fam}",
+                f"assignment to the absent {target} raised "
+                f"{type(raised).__name__} but {changed} changed")
+        rec.cls(f"map={m}", f"target={target}", "route=assign_absent",
+                f"kind={kind}", f"form={form}", "expect=refuse_absent",
+                f"case={case}")
+        rec.nt([m, target, 'absent', kind, form, case, spec['seed']])
+        rec.note({'mapping': m, 'target': target, 'route': 'assign_absent',
+                  'kind': kind, 'form': form, 'value': val,
+                  'raised': type(raised).__name__})
+        return
 
     # ---- act -----------------------------------------------------------------
     raised = None
@@ -1100,6 +1380,11 @@ def run(ctx):
         "discrete product mapping(6) x target(5) x route(2) x kind(11) x "
         f"form(7) = 4620 combinations enumerated completely, {reps}x in total"
         " (values, shapes, positions drawn)")
+    # ... the assignments to a property the model lacks (168) ...
+    ctx.enumerate('reject', absent_product(ctx.seed), case_reject)
+    ctx.notes['reject_absent'] = (
+        "mapping(6) x target(property_y, property_z) x valid kind(2) x "
+        "form(7) = 168 assignments to a property the model lacks, 1x")
     # ... plus free exploration
     ctx.explore('reject', reject_strategy(), case_reject, ctx.n(800, 4000))
     ctx.explore('solve', solve_strategy(), case_solve, ctx.n(120, 700))
